@@ -56,11 +56,16 @@ def run(ck, ctx):
                      "taken from state the callback captured - a buffer that outlives the call keeps the parts of an invocation that failed "
                      "half-way (nil/boolean/table argument), and the next redis.call of the script runs a different command than the "
                      "script wrote")
+    ck.rule("R16.7", "a command means the same inside a queued script: when EXEC replays its queue the executor has already left queuing mode - the "
+                     "store `in_transaction = false` dominates the replay of the queued commands (the redis.call bridge re-enters the executor's "
+                     "ordinary entry point; with the flag still set a queued EVAL gets `QUEUED` back from every redis.call and its commands are "
+                     "dropped, while the same commands sent directly inside MULTI/EXEC take effect)")
     for cfg in ctx.configs:
         prog = ctx.prog(cfg)
         _r164(ck, prog, cfg)
         _r165(ck, prog, cfg)
         _r166(ck, prog, cfg)
+        _r167(ck, prog, cfg)
 
 
 # ------------------------------------------------------------------------------------------------
@@ -503,3 +508,34 @@ def _r166(ck, prog, cfg):
         ck.ok("R16.6", "lua-not-compiled" + _tag(cfg), "the `lua` feature is off in this configuration")
         return
     ck.floor("R16.6" + _tag(cfg), n, 2)
+
+
+# ------------------------------------------------------------------------------------------------
+def _r167(ck, prog, cfg):
+    tag = "" if cfg == "default" else "@" + cfg
+    EXE = "redis::executor::CommandExecutor"
+    fs = [f for f in prog.lib_fns() if f.id.endswith("::execute_exec") and f.impl_self == EXE]
+    if not fs:
+        ck.anchor_lost("R16.7", "CommandExecutor::execute_exec not found")
+        return
+    f = fs[0]
+    # executor entry points: (&mut CommandExecutor, &Command) -> RespValue
+    entries = {g.id for g in prog.lib_fns() if g.impl_self == EXE and g.kind == "method" and g.d["argc"] == 2 and g.locals
+               and g.locals[0] == "redis::resp::RespValue" and str(g.locals[1]).startswith("&mut ") and "command::Command" in str(g.locals[2])}
+    sites = [b for b, t in f.calls() if callee(t) in entries]
+    kids = [c for c in prog.children(f) if any(callee(t) in entries for _, t in c.calls())]
+    for c in kids:
+        # the parent site that runs the closure: the call that receives it (map/for_each) or the collect that drives the lazy chain
+        for b, t in f.calls():
+            if any((lambda s_: s_.kind == "agg" and s_.rv.get("ak") == "closure" and s_.rv.get("n") == c.id)(src_of_operand(f, a)) for a in t["args"][1:] if "c" not in a):
+                sites.append(b)
+    stores = [b for b, i, st in f.stmts() if [e.get("f") for e in st["lhs"].get("p", []) if isinstance(e, dict) and "f" in e][-1:] == ["in_transaction"]
+              and st["rv"]["k"] == "use" and str(st["rv"]["a"].get("c", "")).replace("const ", "") == "false"]
+    n = 0
+    for k, sb in enumerate(sorted(set(sites))):
+        n += 1
+        ck.check(any(f.dominates(b, sb) for b in stores), "R16.7", "execute_exec:replay#%d%s" % (k, tag),
+                 "EXEC replays queued commands while `in_transaction` may still be set (no dominating `in_transaction = false`): a queued script's "
+                 "redis.call re-enters the queueing entry point and its commands are queued and dropped instead of executed", f.where(f.term(sb)["ln"]),
+                 detail="in_transaction = false dominates the replay")
+    ck.floor("R16.7" + tag, n, 1)
